@@ -156,7 +156,7 @@ def main():
                          indent=1, default=str))
         return 1 if (r.get("status") == "differ" or r.get("det")) else 0
     run = Run("C09", a.tier, "translation_validation")
-    n = 320 if a.tier == "quick" else 6000
+    n = 960 if a.tier == "quick" else 12000
     TIMEOUT = 20000 if a.tier == "quick" else 120000
     kinds = ["plain", "general", "spin", "general", "spinall", "spin", "general", "plain"]
     base = seed() * 1000003 + 900
